@@ -21,7 +21,7 @@ RULE = ("(encoder level) for every setting of ET, DT and the register-addressed 
 ASSUMPTIONS = ["values whose encoding is the type's 'no value' sentinel (Integer 65535, Voltage/Current 6553.5, Long 2^32-1) are "
                "outside the readable domain: only the write part is asserted for them",
                "ES: only the register-addressed settings (eco-mode groups and switches; 011A/0239 over AA55 for v1, Modbus for v2)"]
-MUST = ["overlapping_write_calls", "write_applied_but_answered_with_exception", "sensors_polled_before_settings", "write_after_recovered_fragment_loss", "switch_seen_in_its_group", "refused_writes", "refused_rmw_reads", "byte_setting_already_holds_value", "dt_phase_pairs", "encoder_values", "e2e_writes", "e2e_readbacks", "byte_settings_rmw", "negative_values", "multi_register_writes",
+MUST = ["es_eco_v2_groups_at_version_edges", "overlapping_write_calls", "write_applied_but_answered_with_exception", "sensors_polled_before_settings", "write_after_recovered_fragment_loss", "switch_seen_in_its_group", "refused_writes", "refused_rmw_reads", "byte_setting_already_holds_value", "dt_phase_pairs", "encoder_values", "e2e_writes", "e2e_readbacks", "byte_settings_rmw", "negative_values", "multi_register_writes",
         "aa55_writes", "tcp_writes", "settings_covered"]
 EXHAUSTIVE = {"quick": False, "thorough": False}
 
@@ -392,7 +392,50 @@ def e2e_part(spec, part):
                  "last_writes": [(w[1], [hex(x) for x in w[2]]) for w in sim.writes[-3:]]})
 
 
+def es_layout_part(part):
+    """ES-protocol units whose firmware is documented to have the 12-byte eco-mode groups at Modbus registers 47547.. (ARM >= 14 and DSP >= 22 on
+    ES, >= 11 on EM, >= 10 on BP units) - at the edges of those version ranges: a 12-byte group written through write_setting('eco_mode_N') goes out as ONE
+    write of exactly those bytes to the group's registers and reads back"""
+    g = env.goodwe()
+    for tag, dsp_min in (("ESU", 22), ("EMU", 11), ("BPS", 10)):
+        for dsp, arm in ((dsp_min, 14), (dsp_min, 15), (dsp_min + 3, 14), (dsp_min, 35), (99, 14)):
+            fw = f"{dsp:02d}{dsp:02d}".encode() + "0123456789ABCDEFGHIJKLMNOPQRSTUVWXYZ"[arm].encode()
+            sim = models.es_sim(fw=fw, tag=tag)
+            out = {}
+            value = bytes([1, 30, 22, 15, 0xFF, 0x1F]) + (-45).to_bytes(2, "big", signed=True) + (80).to_bytes(2, "big") + b"\x00\x00"
+
+            async def flow(loop):
+                inv = g.ES("inv0", 8899, 0, 1, 1)
+                await inv.read_device_info()
+                for k, base in ((1, 47547), (3, 47559)):
+                    w0 = len(sim.writes)
+                    try:
+                        await inv.write_setting(f"eco_mode_{k}", value)
+                        back = await inv.read_setting(f"eco_mode_{k}")
+                        out[k] = ("ok", sim.writes[w0:], back)
+                    except Exception as e:      # noqa
+                        out[k] = (f"{type(e).__name__}: {e}", sim.writes[w0:], None)
+            run = engine.run_custom({("inv0", 8899): sim}, flow, vtime_cap=600, tx_cap=600)
+            part.evaluations += 1
+            ctx = f"ES-protocol unit {tag} firmware {fw.decode()} (DSP {dsp}, ARM {arm}: documented to have the 12-byte eco-mode groups)"
+            case = {"es_layout": True}
+            if run.stop or run.error is not None:
+                part.violate("C17/ES/run-failed", f"{ctx}: {run.stop or repr(run.error)}", case)
+                continue
+            for k, base in ((1, 47547), (3, 47559)):
+                how, writes, back = out.get(k, ("not run", [], None))
+                want = [int.from_bytes(value[2 * i:2 * i + 2], "big") for i in range(6)]
+                if how != "ok" or [(w[1], list(w[2])) for w in writes] != [(base, want)]:
+                    part.violate("C17/ES/wrong-write/Schedule", f"{ctx}: write_setting('eco_mode_{k}', {value.hex()}) ended {how}; writes that reached the inverter: "
+                                                                 f"{[(w[1], list(w[2])) for w in writes]}, expected one write of {want} to {base}", case)
+                else:
+                    part.count("es_eco_v2_groups_at_version_edges")
+            part.see(f"eslayout|{tag}|{dsp}|{arm}")
+
+
 def dt_pair_part(spec, part):
+    if spec.get("n") and not spec.get("i_only"):
+        es_layout_part(part)
     """DT documents grid_export_limit as Long@40328 (W) on single-phase and Integer@40336 (%) on three-phase models: with one object of
     each kind alive, a write on either must still go to ITS registers only."""
     g = env.goodwe()
@@ -532,6 +575,8 @@ def replay(case):
     part = Part()
     if case.get("overlap"):
         overlapping_writes_part({"seed": case["seed"], "n": case["i"] + 1}, part)
+    elif case.get("es_layout"):
+        es_layout_part(part)
     elif case.get("dtpair"):
         dt_pair_part({"seed": case["seed"], "n": case["i"] + 1}, part)
     elif case.get("e2e"):
